@@ -1491,9 +1491,13 @@ impl<'a> AnalyzeContext<'a, '_> {
 
                     // @TODO lookup already set reference to get O(N) instead of O(N^2) when disambiguating deeply nested ambiguous calls
                     if let Some(id) = prefix.item.get_suffix_reference() {
-                        if let Some(ent) = OverloadedEnt::from_any(self.arena.get(id)) {
+                        // The reference may have been set to a procedure by an earlier attempt whose diagnostics were discarded
+                        // In that case the error is reported by the ordinary disambiguation below
+                        if let Some(return_type) = OverloadedEnt::from_any(self.arena.get(id))
+                            .and_then(|ent| ent.return_type())
+                        {
                             return Ok(ResolvedName::Expression(DisambiguatedType::Unambiguous(
-                                ent.return_type().unwrap(),
+                                return_type,
                             )));
                         }
                     }
@@ -2592,6 +2596,42 @@ procedure proc(arg: natural);
                 ErrorCode::MismatchedKinds,
             )],
         );
+    }
+
+    #[test]
+    fn procedure_cannot_be_used_when_reference_is_already_set() {
+        let test = TestSetup::new();
+        test.declarative_part(
+            "
+procedure proc(arg: natural);
+        ",
+        );
+        let code = test.snippet("proc(0)");
+        let mut name = code.name();
+        let tokens = code.tokenize();
+        // The reference set by the first attempt must not be taken for a function by the second
+        for _ in 0..2 {
+            let mut diagnostics = Vec::new();
+            assert_eq!(
+                test.ctx(&tokens).name_resolve_with_suffixes(
+                    &test.scope,
+                    name.span,
+                    &mut name.item,
+                    None,
+                    false,
+                    &mut diagnostics,
+                ),
+                Err(EvalError::Unknown)
+            );
+            check_diagnostics(
+                diagnostics,
+                vec![Diagnostic::new(
+                    code.s1("proc"),
+                    "Procedure calls are not valid in names and expressions",
+                    ErrorCode::MismatchedKinds,
+                )],
+            );
+        }
     }
 
     #[test]
